@@ -43,6 +43,8 @@ func init() {
 			{ID: "C15-R20", Title: "three-way results are -1, 0 or 1 (shared with C16-R29)", Floor: 10, Run: threeWayResultsAreMinusOneZeroOrOne},
 			{ID: "C15-R21", Title: "order and equality of numbers look at the numbers", Floor: 4, Run: orderAndEqualityLookAtTheNumbers},
 			{ID: "C15-R22", Title: "equality is not inherited from an embedded object type", Floor: 1, Run: equalityIsNotInherited},
+			{ID: "C15-R23", Title: "sorted results come out of the stable sort", Floor: 1, Run: sortedResultsComeOutOfTheStableSort},
+			{ID: "C15-R24", Title: "the equality walk compares the sizes itself", Floor: 1, Run: theWalkComparesTheSizesItself},
 		},
 	})
 }
